@@ -250,7 +250,7 @@ def fold(mod, prop_id, tier, seed, results, scratch, t0, args):
         % (prop_id, tier, seed, agg["evaluations"], distinct, len(results), wall)
     )
     for m, (e, v) in sorted(known_hit.items()):
-        print("KNOWN-FINDING: property=%s %s -- %s (seen %d times)" % (prop_id, e["mechanism"], e.get("what", ""), agg["violation_counts"].get(v["mechanism"], 0)))
+        print("KNOWN-FINDING: property=%s %s -- %s (seen %d times)" % (prop_id, e["mechanism"], e.get("what", "")[:240], agg["violation_counts"].get(v["mechanism"], 0)))
     rc = 0
     if new_viol:
         rdir = os.path.join(VERIF, "evidence", "replay")
